@@ -3,7 +3,7 @@
    built by doubling) and 17 (byte/bit glue; a corrupted valid frame verifies iff the error
    pattern has zero syndrome). Definitions of the CRC itself are in Model/Crc.v. *)
 From Coq Require Import NArith List Lia Bool Arith ZArith ZifyBool ZifyNat ZifyN.
-From Rodbus Require Import Model.Crc.
+From Rodbus Require Import Model.Crc Spec.Framing.
 Import ListNotations.
 Ltac Zify.zify_post_hook ::= Z.div_mod_to_equations.
 Local Open Scope N_scope.
@@ -107,7 +107,6 @@ Qed.
 
 (* ---------- the two sweeps that carry the algebra ---------- *)
 (* (1) the sixteen vectors step1^t(1), t=0..15, are independent: every non-zero 16-bit window has non-zero syndrome *)
-Definition bits16 (x : N) : list bool := map (N.testbit x) (map N.of_nat (seq 0 16)).
 Lemma window_nonzero : forall x, x < W -> x <> 0 -> syn (bits16 x) <> 0.
 Proof.
   intros x Hx Hn. rewrite W_pow in Hx.
@@ -128,7 +127,6 @@ Lemma orbit_1 : forall d, (1 <= d <= 2100)%nat -> pw d 1 <> 1.
 Proof. apply orbit_ok_spec. vm_compute. reflexivity. Qed.
 
 (* ---------- error classes in structured form ---------- *)
-Definition zeros n := repeat false n.
 (* burst: everything outside a 16-bit window is untouched, the window is not all-zero *)
 Theorem burst_detected a x z : x < W -> x <> 0 -> syn (zeros a ++ bits16 x ++ zeros z) <> 0.
 Proof.
@@ -158,7 +156,6 @@ Proof. intros Hc E. destruct (N.eq_dec c 0) as [|Hn]; [assumption|]. exfalso. ex
 
 (* ================= 17. frames ================= *)
 (* ---------- byte-wise update = eight bit-serial steps (LSB first = UART wire order) ---------- *)
-Definition bits8 (b : N) : list bool := map (N.testbit b) (map N.of_nat (seq 0 8)).
 Lemma iter_pw n : forall x, iter n step1 x = pw n x.
 Proof. induction n; intros x; [reflexivity|]. cbn [iter pw]. apply IHn. Qed.
 Lemma xorl_false_l l : xorl (repeat false (length l)) l = l.
@@ -177,7 +174,6 @@ Proof.
   rewrite run_lin by (now rewrite repeat_length). f_equal.
   unfold upd. rewrite N.lxor_0_r, iter_pw. change (length (bits8 b)) with 8%nat. now rewrite run_zeros.
 Qed.
-Definition bits_of (l : list N) : list bool := flat_map bits8 l.
 Lemma crc_from_bits l : Forall (fun b => b < 256) l -> forall s, crc_from s l = run s (bits_of l).
 Proof.
   induction 1 as [|b l Hb Hl IH]; intros s; [reflexivity|]. cbn [crc_from fold_left bits_of flat_map].
